@@ -29,8 +29,11 @@ COVERAGE TABLE (statement clause / quantifier dimension -> what explores it -> w
                          no chan/func PARAMETERS; no constraint other than any (D13 territory, C01).
   where methods come from direct or through an embedded interface (class dimension `embed`).  Absent: embedding from another package.
   options                skip-ensure x stub-impl x with-resets, each in its own file AND (one class per shape) all four
-                         skip/stub combinations of ONE interface in ONE file via `configs:`, both orders.  with-resets only at
-                         package level (where the template reads it).
+                         skip/stub combinations of ONE interface in ONE file via `configs:`, both orders.
+  option placement       table PLACEMENTS (TLC): each switch written at any subset of root / package / interface / configs-entry
+                         level with true or false; effective value = most specific writing level (EffSwitch, TLA+).  quick: all 33
+                         placements of stub-impl over <= 2 levels (every level pair, inner false under outer true and vice versa),
+                         the other two switches seed-rotated; thorough: all 81 placements of each switch.  One class per world.
   MFunc                  nil, table function F1 (also writes through reference-like args), F2 (thorough), re-entrant FR (calls A
                          again and reads BCalls() inside), panicking FP; initial value and later assignment.  Absent: MFunc that
                          calls a DIFFERENT mocked method; MFunc replaced while running.
@@ -201,7 +204,7 @@ def build_world(ctx, chosen):
         if code == 0:
             return w, live, skipped, w / "drvbin"
         bad = {}
-        for m in re.finditer(r"^(out/[oxy]\d/mocks\.go|in/i\d/mocks_gen\.go|in/i\d/shim\.go):(\d+):\d+: (.*)$", err, re.M):
+        for m in re.finditer(r"^(out/[oxy]\d/mocks\.go|out/pw\d+/mocks\.go|in/i\d/mocks_gen\.go|in/i\d/shim\.go):(\d+):\d+: (.*)$", err, re.M):
             cid = class_at(w / m.group(1), int(m.group(2)))
             if cid:
                 bad.setdefault(cid, m.group(3))
@@ -244,6 +247,104 @@ def multi_classes(live):
             seen.add(sk)
             out.append(cid)
     return out
+
+
+# Option PLACEMENT across configuration levels (table PLACEMENTS computed by TLC, MatryerMockMC!PlaceTable): a placed world is
+# one source package pl/w<i> with one interface, mocked once into out/pw<i>; each of the three switches is written at the
+# levels its table row says (root template-data / package config / interface config / configs entry), possibly with an
+# explicit false under an outer true.  The histories replayed on the mock are those of the option set the rows' `eff` give.
+PLACE_KEYS = (("skip-ensure", "skip"), ("stub-impl", "stub"), ("with-resets", "resets"))
+PLACE_LEVELS = ("root", "pkg", "iface", "entry")
+PLACED_WORLDS = []       # set by run(): [{"skip-ensure": row, "stub-impl": row, "with-resets": row}, ...]
+PLACED_SEED = 0
+
+
+def choose_placements(ctx, table, thorough):
+    rows = sorted(table, key=lambda r: r["lv"])
+    worlds = []
+    order = ["unset", "true", "false"]
+    for fi, (focus, _) in enumerate(PLACE_KEYS):
+        if not thorough and focus != "stub-impl":
+            continue              # quick: the switch with run-time behaviour is the focus; the other two vary along (seed-rotated)
+        for r in rows:
+            if not thorough and r["nset"] > 2:
+                continue          # quick: every placement that writes the focus switch at <= 2 levels (33 of 81)
+            wd = {focus: r}
+            for oi, (other, _) in enumerate(PLACE_KEYS):
+                if other == focus:
+                    continue
+                cand = rows
+                if not thorough:  # quick: few distinct root-level triples (one mockery run per triple)
+                    want = order[(order.index(r["lv"][0]) + 1 + oi) % 3]
+                    cand = [x for x in rows if x["lv"][0] == want]
+                wd[other] = ctx.rng.choice(cand)
+            worlds.append(wd)
+    return worlds
+
+
+def placed(live):
+    """-> [(package name, world, class id)]: which class each placed world mocks (rotated by the seed)"""
+    cids = [cid for cid, c in live.items() if not in_package(c)]
+    if not cids:
+        return []
+    return [("pw%d" % i, wd, cids[(i * 7 + PLACED_SEED) % len(cids)]) for i, wd in enumerate(PLACED_WORLDS)]
+
+
+def placed_eff(wd):
+    return {short: wd[key]["eff"] for key, short in PLACE_KEYS}
+
+
+def level_data(wd, li):
+    """template-data written at level li of a placed world (None: the key template-data is absent there)"""
+    td = {key: wd[key]["lv"][li] == "true" for key, _ in PLACE_KEYS if wd[key]["lv"][li] != "unset"}
+    return td or None
+
+
+def generate_placed(ctx, w, live):
+    import shutil
+    from concurrent.futures import ThreadPoolExecutor
+    shutil.rmtree(w / "pl", ignore_errors=True)
+    groups = {}
+    for pkg, wd, cid in placed(live):
+        c = live[cid]
+        d = w / "pl" / pkg[1:]
+        d.mkdir(parents=True)
+        (d / "src.go").write_text("package %s\n\n%s%s" % (pkg[1:], PRELUDE, iface_src(cid, c)))
+        entry = {"dir": str(w / "out" / pkg), "filename": "mocks.go", "pkgname": pkg, "structname": "Moq" + cid}
+        iface, pconf = {}, {}
+        for li, holder in ((1, pconf), (2, iface), (3, entry)):
+            td = level_data(wd, li)
+            if td is not None:
+                holder["template-data"] = td
+        ic = {"configs": [entry]}
+        if iface:
+            ic["config"] = iface
+        pc = {"interfaces": {cid: ic}}
+        if pconf:
+            pc["config"] = pconf
+        root = level_data(wd, 0)
+        groups.setdefault(json.dumps(root, sort_keys=True), (root, {}))[1]["%s/pl/%s" % (MOD, pkg[1:])] = pc
+    jobs = []
+    for gi, gk in enumerate(sorted(groups)):
+        root, pk = groups[gk]
+        conf = {"template": "matryer", "packages": pk}
+        if root is not None:
+            conf["template-data"] = root
+        fn = w / (".mockery.placed%d.yml" % gi)
+        fn.write_text(json.dumps(conf))
+        jobs.append(fn)
+
+    def one(fn):
+        return fn, ctx.run_mockery(w, args=["--config", str(fn)], timeout=600, trace=False)
+    with ThreadPoolExecutor(max_workers=4) as ex:
+        for fn, res in ex.map(one, jobs):
+            if res.code != 0:
+                raise MachineryError("mockery failed to generate the placed matryer mocks (%s, exit %s):\n%s\n%s"
+                                     % (fn.name, res.code, fn.read_text()[:1500], (res.err + res.out)[-2000:]))
+    for pkg, wd, cid in placed(live):
+        if not (w / "out" / pkg / "mocks.go").exists():
+            raise MachineryError("mockery exit 0 but out/%s/mocks.go was not written" % pkg)
+    return len(jobs)
 
 
 def generate(ctx, w, live):
@@ -313,6 +414,7 @@ def generate(ctx, w, live):
             raise MachineryError("mockery exit 0 but out/o%d/mocks.go was not written" % k)
         if inp and not (w / "in" / ("i%d" % k) / "mocks_gen.go").exists():
             raise MachineryError("mockery exit 0 but in/i%d/mocks_gen.go was not written" % k)
+    generate_placed(ctx, w, live)
 
 
 def write_registry(w, live):
@@ -321,7 +423,11 @@ def write_registry(w, live):
     imp += "".join('\t%s "%s/out/%s"\n' % (d, MOD, d) for d in ("x0", "x1", "y0", "y1"))
     if inp:
         imp += "".join('\ti%d "%s/in/i%d"\n' % (k, MOD, k) for k, *_ in OPT_PKGS)
+    imp += "".join('\t%s "%s/out/%s"\n' % (pkg, MOD, pkg) for pkg, _, _ in placed(live))
     ent = []
+    for pkg, _, cid in placed(live):
+        ent.append('\t"%s/%s": {mk: func() interface{} { return &%s.Moq%s%s{} }, names: [3]string{"A", "B", "Ab"}},\n'
+                   % (pkg, cid, pkg, cid, tinst(live[cid])))
     for cid, c in live.items():
         ma, mb, mx = MNAMES[c.get("mnames", "AB")]
         for k, *_ in OPT_PKGS:
@@ -520,6 +626,13 @@ def run(ctx):
     if len(shapes) != 28:
         raise MachineryError("class table: expected 28 shapes, got %d" % len(shapes))
 
+    ptabs = r.prints("PLACEMENTS")
+    if not ptabs or len(ptabs[0]) != 81:
+        raise MachineryError("TLC did not print the option placement table (81 rows)")
+    global PLACED_WORLDS, PLACED_SEED
+    PLACED_SEED = ctx.seed
+    PLACED_WORLDS = choose_placements(ctx, ptabs[0], thorough)
+
     # ------------------------------------------------------------ 2a. generate + compile the real mocks
     chosen = choose_classes(ctx, classes, None if thorough and os.environ.get("C04_ALL_CLASSES") else (3 if thorough else 2))
     only = None
@@ -595,6 +708,21 @@ def run(ctx):
             multi_pkgs.append(pp)
             plan_pkgs["%s/%s" % ("true" if stub else "false", "true" if d[1] == "1" else "false")].append(pp)
 
+    placed_pkgs = []
+    if True:
+        for pkg, wd, cid in placed(live):
+            eff = placed_eff(wd)            # computed by TLC (MatryerMockContract!EffSwitch), not here
+            plan_pkgs["%s/%s" % ("true" if eff["stub"] else "false", "true" if eff["resets"] else "false")].append(pkg)
+            placed_pkgs.append(pkg)
+        # vacuity: for stub-impl every (outer level, inner level) pair with the inner level contradicting the outer one,
+        # in both directions (the explicit false under a true is the one a "zero value = unset" merge gets wrong)
+        flips = {tuple(f) for _, wd, _ in placed(live) for f in wd["stub-impl"]["flips"]}
+        need = {(PLACE_LEVELS[i], PLACE_LEVELS[j], v) for i in range(4) for j in range(i + 1, 4) for v in ("true", "false")}
+        if need - flips:
+            raise MachineryError("vacuous: no placed mock overrides stub-impl for %s" % sorted(need - flips)[:4])
+        if not any(f[2] == "false" for _, wd, _ in placed(live) for f in wd["with-resets"]["flips"] + wd["skip-ensure"]["flips"]):
+            raise MachineryError("vacuous: no placed mock switches with-resets / skip-ensure off under an outer true")
+
     # ------------------------------------------------------------ 2b. export histories, replay them on the mocks
     stats = {"len": {}, "sample": []}
     d = ctx.mkdir("replay")
@@ -622,7 +750,7 @@ def run(ctx):
         plan = {"classes": plan_classes, "pkgs": plan_pkgs, "trace_every": every, "trace_offset": ctx.seed % every,
                 "max_mismatch": 20000, "class_types": {cid: c["types"] for cid, c in live.items()},
                 "class_refpos": {cid: c["refpos"] for cid, c in live.items()}, "light_pkgs": ["o%d" % k for k, skip, _, _ in OPT_PKGS if skip] + multi_pkgs, "light_max_ops": 2,
-                "sparse_pkgs": multi_pkgs, "workers": ctx.workers(), "hang_seconds": 30}
+                "sparse_pkgs": multi_pkgs + placed_pkgs, "workers": ctx.workers(), "hang_seconds": 30}
         traces, summary, hang = run_driver(ctx, drv, plan, cases_path, d / ("out%d.ndjson" % ci), 3000)
         for t in traces:                       # replay ids are per driver run: make them unique across chunks
             t["replay"] += (ci + 1) * 10 ** 8
@@ -687,6 +815,13 @@ def run(ctx):
             if sum(per_key.get("%s/%s" % (pp, cid), [0, 0])) == 0:
                 raise MachineryError("vacuous: no history was replayed on the multi-mock file entry %s/%s" % (pp, cid))
     ctx.cov["multi_mock_file_entries"] = len(multi_pkgs) * len(multi_classes(live))
+    if True:
+        for pkg, wd, cid in placed(live):
+            if sum(per_key.get("%s/%s" % (pkg, cid), [0, 0])) == 0:
+                raise MachineryError("vacuous: no history was replayed on the placed mock %s/%s" % (pkg, cid))
+        ctx.cov["placed_mocks"] = len(placed_pkgs)
+        ctx.cov["placed_mocks_inner_false_under_outer_true"] = sum(
+            1 for _, wd, _ in placed(live) if any(f[2] == "false" for key, _ in PLACE_KEYS for f in wd[key]["flips"]))
 
     # ------------------------------------------------------------ 3. TLC judges the recorded op logs (contract)
     for t in all_traces:
@@ -731,7 +866,7 @@ def run(ctx):
                     "history_length_histogram": {str(k): v for k, v in sorted(stats["len"].items())},
                     "replays": totals["replays"], "replay_steps": totals["steps"], "replays_matching_model": totals["matched"],
                     "replays_differing_from_model": totals["mismatched"], "classes_generated": len(live),
-                    "classes_skipped_not_compiling": len(skipped), "mocks_generated": len(live) * 8 + 16 * len(multi_classes(live)),
+                    "classes_skipped_not_compiling": len(skipped), "mocks_generated": len(live) * 8 + 16 * len(multi_classes(live)) + len(placed_pkgs),
                     "generate_and_build_s": round(t_gen, 1),
                     "deep_shapes": [shape_key(s) for s in deep],
                     "situations_in_exported_histories": {k: stats.get(k, 0) for k in list(GUARDS) + ["read_reset_call_reinspect"]}})
@@ -792,7 +927,12 @@ def report(ctx, rj, live, kind):
     seen = ctx.__dict__.setdefault("_c04_seen", {})
     cid = t["key"].split("/")[1]
     pkgpart = t["key"].split("/")[0]
-    if pkgpart[0] == "o":
+    world = None
+    if pkgpart.startswith("pw"):
+        world = PLACED_WORLDS[int(pkgpart[2:])]
+        eff = placed_eff(world)
+        k = (1 if eff["skip"] else 0) | (2 if eff["stub"] else 0) | (4 if eff["resets"] else 0)
+    elif pkgpart[0] == "o":
         k = int(pkgpart[1])
     else:                                   # multi-mock file entry "x<r>.<j>" / "y<r>.<j>", j = skip + 2*stub
         k = int(pkgpart.split(".")[1]) | (4 if pkgpart[1] == "1" else 0)
@@ -800,15 +940,18 @@ def report(ctx, rj, live, kind):
     at = rj["at"]
     sig = {"kind": kind, "clause": rj.get("clause"), "op": at.get("op"), "names": c.get("names"), "types": c.get("types"),
            "method_names": c.get("mnames"),
-           "layout": "single" if pkgpart[0] == "o" and not in_package(c) else ("in-package" if pkgpart[0] == "o" else "multi-mock-file-" + pkgpart[0]),
+           "layout": "placed" if world else "single" if pkgpart[0] == "o" and not in_package(c) else ("in-package" if pkgpart[0] == "o" else "multi-mock-file-" + pkgpart[0]),
            "variadic": c.get("shape", {}).get("var"), "stub": bool(k & 2), "resets": bool(k & 4),
            "reply": at.get("reply", {}).get("kind")}
+    if world:      # which switch is written where (outermost level first); `overridden` = inner level contradicting an outer one
+        sig["overridden"] = sorted("%s:%s>%s=%s" % (key, f[0], f[1], f[2]) for key, _ in PLACE_KEYS for f in world[key]["flips"])
     sk = json.dumps(sig, sort_keys=True)
     seen[sk] = seen.get(sk, 0) + 1
     if seen[sk] > 1 or len(seen) > 15:
         return
     ctx.violation(sig, {"mock": t["key"], "class": c, "interface": iface_src(cid, c) if c else None,
                         "options": {"skip-ensure": bool(k & 1), "stub-impl": bool(k & 2), "with-resets": bool(k & 4)},
+                        "placement": ({key: dict(zip(PLACE_LEVELS, world[key]["lv"])) for key, _ in PLACE_KEYS} if world else None),
                         "rejected_step": rj["step"], "rejected_event": at, "op_log": t["events"],
                         "model_expected": t.get("mismatch"), "contract": "spec/MatryerMockContract.tla (StepOK)"})
 
